@@ -266,6 +266,43 @@ func cmpForms() []form {
 	return out
 }
 
+// exprOperandForms are operands that are not plain paths: an element indexed by a variable, a map
+// entry keyed by a variable, a parenthesised operand, a function call result. Negated, they have
+// to mean the same in every position (for a non-boolean operand the expression library refuses
+// the negation and each position falls back on its own).
+func exprOperandForms() []form {
+	notMissing := func(v vals.V) bool { return v.K == "missing" }
+	return []form{
+		{name: "element indexed by a variable l[i]", path: "l[i]", skip: notMissing,
+			data: func(v any, _ bool) map[string]any { return map[string]any{"l": []any{"pad", v}, "i": 1} }},
+		{name: "element indexed by the loop index l[j]", path: "l[j]", skip: notMissing,
+			wrap: [2]string{`<div v-for="(j, nm) in names">`, `</div>`},
+			data: func(v any, _ bool) map[string]any {
+				return map[string]any{"l": []any{v}, "names": []any{"a"}}
+			}},
+		{name: "map entry keyed by a variable m[key]", path: "m[key]", skip: notMissing,
+			data: func(v any, _ bool) map[string]any { return map[string]any{"m": map[string]any{"k1": v}, "key": "k1"} }},
+		{name: "parenthesised operand (x)", path: "(x)", neg: "!(x)",
+			data: func(v any, miss bool) map[string]any { return mapWith("x", v, miss) }},
+		{name: "function call len(xs)", path: "len(xs)", neg: "!len(xs)",
+			skip: func(v vals.V) bool { return v.K != "bool" },
+			data: func(v any, _ bool) map[string]any {
+				if v == true {
+					return map[string]any{"xs": []any{1, 2}}
+				}
+				return map[string]any{"xs": []any{}}
+			}},
+		{name: "function call int(n)", path: "int(n)", neg: "!int(n)",
+			skip: func(v vals.V) bool { return v.K != "bool" },
+			data: func(v any, _ bool) map[string]any {
+				if v == true {
+					return map[string]any{"n": "3"}
+				}
+				return map[string]any{"n": "0"}
+			}},
+	}
+}
+
 // builtinNames are data keys that are also built-in functions of the expression library and / or
 // registered template functions: as data keys they are ordinary names (docs/expressions.md uses
 // count, docs/funcmap.md len / title / type as functions).
@@ -388,14 +425,14 @@ func formPositions() []position {
 		data := func(v vals.V) map[string]any {
 			var val any
 			if v.K != "missing" {
-				val = v.Go()
+				val = valGo(v)
 			}
 			d := f.data(val, v.K == "missing")
 			d["tt"], d["ff"] = true, false
 			if f.path == "x" {
 				// the shadowed root variable has the opposite truthiness (true where the
 				// documentation does not settle the value)
-				t, spec := v.Truthy()
+				t, spec := valTruthy(v)
 				d["x"] = !spec || !t
 			}
 			return d
@@ -437,6 +474,7 @@ func allForms() []form {
 	out := append([]form(nil), forms...)
 	out = append(out, promotedForms()...)
 	out = append(out, funcNameForms()...)
+	out = append(out, exprOperandForms()...)
 	out = append(out, callForms()...)
 	return append(out, cmpForms()...)
 }
@@ -489,7 +527,7 @@ func excludedPositions(v vals.V, open map[string]bool) map[string]string {
 	if open[fShowChain] {
 		out[pShowChain] = fShowChain
 	}
-	if t, spec := v.Truthy(); open[fClassNot] && ((spec && !t) || (v.K == "string" && v.S == "false")) {
+	if t, spec := valTruthy(v); open[fClassNot] && ((spec && !t) || (v.K == "string" && v.S == "false")) {
 		// negated :class entries whose operand the expression library cannot negate
 		for _, p := range positionNames() {
 			if p != pClassNot && !strings.HasSuffix(p, "/ :class !") {
@@ -498,6 +536,12 @@ func excludedPositions(v vals.V, open map[string]bool) map[string]string {
 			if v.K != "bool" || stackOnlyPosition(p) {
 				out[p] = fClassNot
 			}
+		}
+	}
+	if t, spec := valTruthy(v); open[fAttrOperand] && !(spec && !t) {
+		for _, f := range []string{"element indexed by a variable l[i]", "element indexed by the loop index l[j]",
+			"map entry keyed by a variable m[key]", "parenthesised operand (x)"} {
+			out[f+" / :attr"] = fAttrOperand
 		}
 	}
 	if open[fBuiltinVar] && v.K == "bool" {
@@ -527,15 +571,15 @@ func truthData(v vals.V) map[string]any {
 	d := map[string]any{"tt": true, "ff": false}
 	row := map[string]any{}
 	if v.K != "missing" {
-		d["x"] = v.Go()
-		row["x"] = v.Go()
+		d["x"] = valGo(v)
+		row["x"] = valGo(v)
 	}
 	d["rows"] = []any{row}
 	return d
 }
 
 func checkTruth(c TruthCase) error {
-	doc, specified := c.Val.Truthy()
+	doc, specified := valTruthy(c.Val)
 	want := map[string]bool{}
 	for _, p := range c.Pos {
 		want[p] = true
@@ -590,7 +634,7 @@ func tf(b bool) string {
 }
 
 func classifyTruth(c TruthCase) (bool, []string) {
-	t, spec := c.Val.Truthy()
+	t, spec := valTruthy(c.Val)
 	cls := []string{"B:kind=" + c.Val.K}
 	switch {
 	case !spec:
